@@ -35,9 +35,18 @@ def run(tier):
             for st in (('CANCELLED', 'ERROR') if at % 2 else ('CANCELLED',)):
                 jobs.append(dict(prog=pb, scheduler=sch, policy=('random', 'starve_ptq', 'results_first', 'lifo')[at % 4], seed=at, label='pause_backlog',
                                  ops=[dict(at=at, op='stop', state=st, msg='halt')]))
+    # a join (an action, or a sub-workflow call) whose inbound tasks have all completed but whose refresh job has not run yet: the
+    # stop lands in between, the job fires afterwards
+    from harness import engrun
+    for kind in ('action', 'workflow'):
+        for k, pol in enumerate(engrun.POLICIES[1:]):
+            P = gen.join_of_kind(kind)
+            st = ('CANCELLED', 'ERROR', 'SUCCESS')[k % 3]
+            jobs.append(dict(prog=P, scheduler=('default', 'legacy')[k % 2], policy=pol, seed=k + 1, label='stop_ready_join_%s' % kind,
+                             ops=[dict(when='join_ready_not_started', op='stop', state=st, msg='halt')]))
     return ec.run_property(PID, tier, jobs,
                            'generated programs stopped with ERROR / CANCELLED / SUCCESS at a random step (some while PAUSED), results still '
-                           'in flight delivered afterwards; non-trivial = distinct runs with an acknowledged stop',
+                           'in flight delivered afterwards; fixed histories: stop at every point around the pause command, stop between the completion of a join\'s last inbound task and its refresh job (action join / sub-workflow join); non-trivial = distinct runs with an acknowledged stop',
                            _nontrivial, strict=True,
                            model_behaviours=lambda d: ec.model_jobs(
                                d, tier, sims=[(None, 2 if tier == 'quick' else 8, 2, 0, ('pause', 'stop'))],
